@@ -422,6 +422,25 @@ fn main() {
                     Some(db) => rt.block_on(do_sql(db, &req)),
                     None => json!({"ok": false, "err": "Driver", "msg": "no db"}),
                 },
+                "sql_many" => match dbs.get(&dbname) {
+                    Some(db) => {
+                        // outcome classes only (C29): "ok:<rows>", "E:<class>", "PANIC:<msg>"
+                        let mut res: Vec<Value> = Vec::new();
+                        for q in req["sqls"].as_array().cloned().unwrap_or_default() {
+                            let sql = q.as_str().unwrap_or("").to_string();
+                            let t0 = std::time::Instant::now();
+                            let r = catch_unwind(AssertUnwindSafe(|| rt.block_on(db.ctx.sql(&sql))));
+                            let ms = t0.elapsed().as_millis() as u64;
+                            res.push(match r {
+                                Ok(Ok(qr)) => json!([format!("ok:{}", qr.row_count), ms]),
+                                Ok(Err(e)) => json!([format!("E:{}", err_class(&e)), ms]),
+                                Err(_) => json!([format!("PANIC:{}", LAST_PANIC.lock().unwrap().take().unwrap_or_default()), ms]),
+                            });
+                        }
+                        json!({"ok": true, "res": res})
+                    }
+                    None => json!({"ok": false, "err": "Driver", "msg": "no db"}),
+                },
                 "dist" => match dbs.get(&dbname) {
                     Some(db) => rt.block_on(dist::do_dist(db, &req)),
                     None => json!({"ok": false, "err": "Driver", "msg": "no db"}),
